@@ -337,6 +337,14 @@ class Stacker(Transformer):
         # Check if data to be transformed has the same feature coordinates as the data used to fit the stacker
         self._validate_transform_feature_coords(X)
 
+        # A Dataset is stacked variable by variable: keep the order of the variables seen when fitting
+        if isinstance(X, xr.Dataset) and self.feature_name in self.coords_out:
+            fitted_index = self.coords_out[self.feature_name].to_index()
+            if "variable" in (fitted_index.names or []):
+                fitted_order = list(dict.fromkeys(fitted_index.get_level_values("variable")))
+                if set(fitted_order) == set(X.data_vars):
+                    X = X[fitted_order]
+
         # Stack data
         sample_dims = self.dims_mapping[self.sample_name]
         feature_dims = self.dims_mapping[self.feature_name]
